@@ -18,6 +18,7 @@ from __future__ import annotations
 import ast
 
 from sa import project as P
+from sa import cfg as C
 from sa.interp import Entry
 from sa.lib import *
 from sa.terms import subterms
@@ -205,8 +206,10 @@ def r_order_flow(ctx):
                 while par is not None and par is not fn:
                     prev = par
                     par = getattr(par, "_parent", None)
-                    if isinstance(par, ast.If) and "multi_objective" in ast.unparse(par.test) and prev in par.orelse:
-                        single = True
+                    if isinstance(par, ast.If) and "multi_objective" in ast.unparse(par.test):
+                        core, pos = C.strip_not(par.test)
+                        if isinstance(core, ast.Attribute) and (prev in par.orelse if pos else prev in par.body):
+                            single = True
                 if single:
                     ctx.ok("R-ORDER-FLOW", f"{m.short}.{fn.name if fn else '?'}: {ast.unparse(node)[:60]} only on the single-element branch")
                 else:
